@@ -458,6 +458,304 @@ fn check_name(rep: &mut Report, name: &str, ranges: &[(u32, u32)], text: &str, p
             _ => rep.inconclusive(json!({"why": "generated grammar has no scan rule for this name", "name": name})),
         }
     }
+    check_contexts(rep, name, f, ranges, &base, text, paths);
+}
+
+
+// ------------------------------------------------------------------------------------------------
+// C. the property used inside larger expressions (where the optimizer passes rewrite around it)
+
+/// Decodes `seg = { (stop | run)* }  stop = { NAME }  run = @{ !NAME ~ ANY ~ (!NAME ~ ANY)* }`:
+/// the children tile the text, a `stop` pair is one character (a member), a `run` pair is a maximal
+/// stretch of non-members (two adjacent runs = the first one stopped at a non-member).
+fn seg_membership<R: RuleType>(text: &str, pairs: Pairs<'_, R>, seg: R, stop: R, run: R) -> Result<BitSet, (Option<u32>, String)> {
+    let mut set = BitSet::new();
+    let mut top = pairs;
+    let Some(root) = top.next() else { return Err((None, "no top pair".into())) };
+    if root.as_rule() != seg {
+        return Err((None, format!("top pair is {:?}", root.as_rule())));
+    }
+    let sp = root.as_span();
+    if sp.start() != 0 || sp.end() != text.len() {
+        return Err((text[sp.end().min(text.len())..].chars().next().map(|c| c as u32), format!("seg spans {}..{} of {}", sp.start(), sp.end(), text.len())));
+    }
+    let mut pos = 0usize;
+    let mut prev_run = false;
+    for p in root.into_inner() {
+        let s = p.as_span();
+        let Some(c) = text[pos..].chars().next() else { return Err((None, "pair past end of text".into())) };
+        if s.start() != pos || s.end() <= pos {
+            return Err((Some(c as u32), format!("pair {:?} spans {}..{}, expected to start at {}", p.as_rule(), s.start(), s.end(), pos)));
+        }
+        let r = p.as_rule();
+        if r == stop {
+            if s.end() != pos + c.len_utf8() {
+                return Err((Some(c as u32), format!("stop pair spans {}..{}, expected one character", s.start(), s.end())));
+            }
+            set.set(c as u32);
+            prev_run = false;
+        } else if r == run {
+            if prev_run {
+                return Err((Some(c as u32), "two adjacent run pairs: the `(!NAME ~ ANY)*` run before this character stopped at a non-member".into()));
+            }
+            prev_run = true;
+        } else {
+            return Err((Some(c as u32), format!("unexpected pair {r:?}")));
+        }
+        pos = s.end();
+    }
+    if pos != text.len() {
+        return Err((text[pos..].chars().next().map(|c| c as u32), format!("children end at byte {pos} of {}", text.len())));
+    }
+    Ok(set)
+}
+
+/// One flag per character of `text`: did the `hit` rule match it (`scan = { (hit | other)* }`).
+fn hits_per_char<R: RuleType>(text: &str, pairs: Pairs<'_, R>, scan: R, hit: R, other: R) -> Result<Vec<bool>, (Option<u32>, String)> {
+    let mut top = pairs;
+    let Some(root) = top.next() else { return Err((None, "no top pair".into())) };
+    if root.as_rule() != scan {
+        return Err((None, format!("top pair is {:?}", root.as_rule())));
+    }
+    let sp = root.as_span();
+    if sp.start() != 0 || sp.end() != text.len() {
+        return Err((text[sp.end().min(text.len())..].chars().next().map(|c| c as u32), format!("scan spans {}..{} of {}", sp.start(), sp.end(), text.len())));
+    }
+    let mut out = Vec::with_capacity(text.len() / 2);
+    let mut pos = 0usize;
+    for p in root.into_inner() {
+        let s = p.as_span();
+        let Some(c) = text[pos..].chars().next() else { return Err((None, "pair past end of text".into())) };
+        if s.start() != pos || s.end() != pos + c.len_utf8() {
+            return Err((Some(c as u32), format!("pair {:?} spans {}..{}, expected {}..{}", p.as_rule(), s.start(), s.end(), pos, pos + c.len_utf8())));
+        }
+        let r = p.as_rule();
+        if r == hit {
+            out.push(true);
+        } else if r == other {
+            out.push(false);
+        } else {
+            return Err((Some(c as u32), format!("unexpected pair {r:?}")));
+        }
+        pos = s.end();
+    }
+    if pos != text.len() {
+        return Err((text[pos..].chars().next().map(|c| c as u32), format!("children end at byte {pos} of {}", text.len())));
+    }
+    Ok(out)
+}
+
+/// Up to ~100 members of every advertised property: the first and last few, evenly spaced ones, and
+/// the first member of every plane.
+fn samples() -> &'static Vec<(&'static str, PropFn, Vec<char>)> {
+    static S: std::sync::OnceLock<Vec<(&'static str, PropFn, Vec<char>)>> = std::sync::OnceLock::new();
+    S.get_or_init(|| {
+        let mut out = vec![];
+        for (name, f) in tables::FNS.iter() {
+            let members: Vec<char> = scalars(0, MAX_CP).filter(|c| f(*c)).collect();
+            let mut pick: BTreeSet<char> = BTreeSet::new();
+            let n = members.len();
+            for i in 0..n.min(8) {
+                pick.insert(members[i]);
+                pick.insert(members[n - 1 - i]);
+            }
+            if n > 0 {
+                for i in 0..64 {
+                    pick.insert(members[i * (n - 1) / 63.max(1)]);
+                }
+                for plane in 0..17u32 {
+                    let at = members.partition_point(|c| (*c as u32) < plane << 16);
+                    if at < n && (members[at] as u32) >> 16 == plane {
+                        pick.insert(members[at]);
+                    }
+                }
+            }
+            out.push((*name, *f, pick.into_iter().collect()));
+        }
+        out
+    })
+}
+
+fn pair_text(a: &[char], b: &[char], salt: u64) -> String {
+    let mut s = String::new();
+    let mut ia = a.iter();
+    let mut ib = b.iter();
+    loop {
+        let x = ia.next();
+        let y = ib.next();
+        if x.is_none() && y.is_none() {
+            break;
+        }
+        s.extend(x);
+        s.extend(y);
+    }
+    s.extend((0x20u8..0x7f).map(|b| b as char));
+    s.extend(scalars(0xa0, 0xbf));
+    let mut h = salt | 1;
+    for _ in 0..48 {
+        h = h.wrapping_mul(6364136223846793005).wrapping_add(1442695040888963407);
+        if let Some(c) = char::from_u32(((h >> 33) % (MAX_CP as u64 + 1)) as u32) {
+            s.push(c);
+        }
+    }
+    s
+}
+
+fn pair_witness(a: &str, b: &str, path: &str, cp: Option<u32>, expected: Value, observed: Value, detail: &str) -> Value {
+    let mut w = witness(a, path, cp, expected, observed, detail);
+    w["partner"] = json!(b);
+    w["rule"] = json!(format!("hit = {{ {a} | {b} }}"));
+    w
+}
+
+/// Contexts for one advertised name; `paths` selects among vm_seg, derive_seg, vm_pair, derive_pair.
+fn check_contexts(rep: &mut Report, name: &str, f: PropFn, ranges: &[(u32, u32)], base: &BitSet, text: &str, paths: &[&str]) {
+    let t0 = std::time::Instant::now();
+    let mut lap = t0;
+    let mut tick = |rep: &mut Report, what: &str| {
+        let now = std::time::Instant::now();
+        rep.add(&format!("ms:{what}"), now.duration_since(lap).as_millis() as u64);
+        lap = now;
+    };
+    let n_chars = text.chars().count() as u64;
+    let parse_err = |t: &str, pos: usize, msg: String| (t.get(pos..).and_then(|x| x.chars().next()).map(|c| c as u32), format!("parse error: {msg}"));
+    // the VM is slow on `!NAME ~ ANY`: in the quick tier it sees every member, every neighbour of a
+    // member and every 8th other scalar of the scan ranges; the generated parser sees the whole text
+    let reduced: String;
+    let vm_text: &str = if text.len() > 2_000_000 || paths.len() == 1 {
+        text
+    } else {
+        reduced = text
+            .chars()
+            .filter(|c| {
+                let u = *c as u32;
+                u % 8 == 0 || base.get(u) || (u > 0 && base.get(u - 1)) || (u < MAX_CP && base.get(u + 1))
+            })
+            .collect();
+        &reduced
+    };
+    if paths.contains(&"vm_seg") {
+        let text = vm_text;
+        let n_chars = text.chars().count() as u64;
+        let g = format!("seg = {{ (stop | run)* }}\nstop = {{ {name} }}\nrun = @{{ !{name} ~ ANY ~ (!{name} ~ ANY)* }}\n");
+        match catch_unwind(AssertUnwindSafe(|| pest_meta::parse_and_optimize(&g))) {
+            Ok(Ok((_, rules))) => {
+                let vm = pest_vm::Vm::new(rules);
+                rep.journal(|| json!({"name": name, "path": "vm_seg", "cp": null}));
+                pest::set_call_limit(None);
+                let got = catch_unwind(AssertUnwindSafe(|| match vm.parse("seg", text) {
+                    Ok(pairs) => seg_membership(text, pairs, "seg", "stop", "run"),
+                    Err(e) => Err(parse_err(text, err_pos(&e), e.variant.message().to_string())),
+                }))
+                .map_err(|p| panic_message(&p));
+                rep.add("lookups", n_chars);
+                compare_parser_path(rep, name, "vm_seg", ranges, base, got, n_chars);
+            }
+            Ok(Err(es)) => {
+                rep.count("evaluations");
+                let msgs: Vec<String> = es.iter().map(|e| e.variant.message().to_string()).collect();
+                rep.violation(witness(name, "vm_seg", None, json!("grammar accepted by the validator"), json!(msgs), "advertised name rejected as a built-in rule inside `(!NAME ~ ANY)*`"));
+            }
+            Err(p) => {
+                rep.count("evaluations");
+                rep.violation(witness(name, "vm_seg", None, json!("grammar accepted"), json!({"panic": panic_message(&p)}), "front-end panicked on a grammar using the property"));
+            }
+        }
+    }
+    tick(rep, "vm_seg");
+    if paths.contains(&"derive_seg") {
+        if let Some((_, seg, stop, run)) = uni::SEG_RULES.iter().find(|(n, ..)| *n == name).copied() {
+            rep.journal(|| json!({"name": name, "path": "derive_seg", "cp": null}));
+            let got = catch_unwind(AssertUnwindSafe(|| match uni::UniParser::parse(seg, text) {
+                Ok(pairs) => seg_membership(text, pairs, seg, stop, run),
+                Err(e) => Err(parse_err(text, err_pos(&e), e.variant.message().to_string())),
+            }))
+            .map_err(|p| panic_message(&p));
+            rep.add("lookups", n_chars);
+            compare_parser_path(rep, name, "derive_seg", ranges, base, got, n_chars);
+        } else {
+            rep.inconclusive(json!({"why": "generated grammar has no seg rule for this name", "name": name}));
+        }
+    }
+    tick(rep, "derive_seg");
+    let judge_pair = |rep: &mut Report, path: &str, b: &str, fb: PropFn, t: &str, got: Result<Result<Vec<bool>, (Option<u32>, String)>, String>| {
+        rep.count("evaluations");
+        rep.count(&format!("pairs_checked:{path}"));
+        rep.add(&format!("scalars_checked:{path}"), t.chars().count() as u64);
+        match got {
+            Err(panic) => rep.violation(pair_witness(name, b, path, None, json!("a parse of the sample text"), json!({"panic": panic}), "parser panicked")),
+            Ok(Err((cp, what))) => {
+                let exp = cp.and_then(char::from_u32).map(|c| json!({"member": f(c) || fb(c)})).unwrap_or(Value::Null);
+                rep.violation(pair_witness(name, b, path, cp, exp, json!(what), "scan parse failed or its tree is not one hit/other pair per character"));
+            }
+            Ok(Ok(flags)) => {
+                let mut members = 0u64;
+                for (c, got) in t.chars().zip(flags.iter()) {
+                    let exp = f(c) || fb(c);
+                    members += exp as u64;
+                    if exp != *got {
+                        rep.violation(pair_witness(name, b, path, Some(c as u32), json!({"member": exp, "first": f(c), "second": fb(c)}), json!({"member": got}),
+                                                   "a choice of two built-in property rules does not match the union of the two property functions"));
+                        return;
+                    }
+                }
+                if members > 0 {
+                    rep.nontrivial(hash_bytes(&[name.as_bytes(), b.as_bytes(), path.as_bytes()]), hash_bytes(&[path.as_bytes(), kind_of(name).as_bytes(), kind_of(b).as_bytes()]));
+                }
+            }
+        }
+    };
+    if paths.contains(&"vm_pair") {
+        let all = samples();
+        tick(rep, "samples");
+        let mine: Vec<char> = all.iter().find(|(n, ..)| *n == name).map(|x| x.2.clone()).unwrap_or_default();
+        let partners: Vec<&(&str, PropFn, Vec<char>)> = all.iter().filter(|(n, ..)| *n != name && pest::unicode::unicode_property_names().any(|a| a == *n)).collect();
+        let mut g = String::from("other = { ANY }\n");
+        for (i, (b, ..)) in partners.iter().enumerate() {
+            g.push_str(&format!("s{i} = {{ (h{i} | other)* }}\nh{i} = {{ {name} | {b} }}\n"));
+        }
+        match catch_unwind(AssertUnwindSafe(|| pest_meta::parse_and_optimize(&g))) {
+            Ok(Ok((_, rules))) => {
+                let vm = pest_vm::Vm::new(rules);
+                pest::set_call_limit(None);
+                for (i, (b, fb, sb)) in partners.iter().enumerate() {
+                    let t = pair_text(&mine, sb, hash_bytes(&[name.as_bytes(), b.as_bytes()]));
+                    rep.journal(|| json!({"name": name, "path": "vm_pair", "partner": b, "cp": null}));
+                    let (sr, hr) = (format!("s{i}"), format!("h{i}"));
+                    let got = catch_unwind(AssertUnwindSafe(|| match vm.parse(&sr, &t) {
+                        Ok(pairs) => hits_per_char(&t, pairs, sr.as_str(), hr.as_str(), "other"),
+                        Err(e) => Err(parse_err(&t, err_pos(&e), e.variant.message().to_string())),
+                    }))
+                    .map_err(|p| panic_message(&p));
+                    judge_pair(rep, "vm_pair", b, *fb, &t, got);
+                }
+            }
+            Ok(Err(es)) => {
+                rep.count("evaluations");
+                let msgs: Vec<String> = es.iter().map(|e| e.variant.message().to_string()).collect();
+                rep.violation(witness(name, "vm_pair", None, json!("grammar accepted by the validator"), json!(msgs), "a choice of two advertised names rejected"));
+            }
+            Err(p) => {
+                rep.count("evaluations");
+                rep.violation(witness(name, "vm_pair", None, json!("grammar accepted"), json!({"panic": panic_message(&p)}), "front-end panicked on a grammar using the property"));
+            }
+        }
+    }
+    tick(rep, "vm_pair");
+    if paths.contains(&"derive_pair") {
+        let all = samples();
+        for (a, b, scan, hit) in uni::PAIR_RULES.iter().filter(|(a, ..)| *a == name) {
+            let (Some(sa), Some(sb)) = (all.iter().find(|(n, ..)| n == a), all.iter().find(|(n, ..)| n == b)) else { continue };
+            let t = pair_text(&sa.2, &sb.2, hash_bytes(&[a.as_bytes(), b.as_bytes()]));
+            rep.journal(|| json!({"name": name, "path": "derive_pair", "partner": b, "cp": null}));
+            let got = catch_unwind(AssertUnwindSafe(|| match uni::UniParser::parse(*scan, &t) {
+                Ok(pairs) => hits_per_char(&t, pairs, *scan, *hit, uni::Rule::other),
+                Err(e) => Err(parse_err(&t, err_pos(&e), e.variant.message().to_string())),
+            }))
+            .map_err(|p| panic_message(&p));
+            judge_pair(rep, "derive_pair", b, sb.1, &t, got);
+        }
+    }
 }
 
 fn err_pos<R: RuleType>(e: &pest::error::Error<R>) -> usize {
@@ -547,7 +845,7 @@ pub fn run(args: &Args) {
             rep.notes.insert("stopped_early_at_name".into(), json!(name));
             break;
         }
-        check_name(&mut rep, name, &ranges, &text, &["fn", "by_name", "vm", "derive"]);
+        check_name(&mut rep, name, &ranges, &text, &["fn", "by_name", "vm", "derive", "vm_seg", "derive_seg", "vm_pair", "derive_pair"]);
     }
     if stopped {
         rep.inconclusive(json!({"why": "time budget reached before the shard's blocks and names were all checked"}));
@@ -591,7 +889,7 @@ fn replay(_args: &Args, rep: &mut Report, path: &std::path::Path) {
         return;
     }
     let ranges = scan_ranges(true);
-    let text = if p == "vm" || p == "derive" { scan_text(&ranges) } else { String::new() };
+    let text = if p == "vm" || p == "derive" || p.ends_with("_seg") { scan_text(&ranges) } else { String::new() };
     if p == "fn" {
         check_name_lists(rep);
     }
